@@ -1,18 +1,135 @@
-(* Calls_proofs.v — every call tree, every fault placement: balanced, one timing
-   record per crossing, thread record restored *)
+(* Calls_proofs.v — every call tree, every placement of unrepresentable values and
+   throwing bodies: the run with the thread record refines the specification that
+   dispatches on the entry point called; notifications are well nested; the timing
+   records are exactly the closing notifications; the thread record's sandbox is restored. *)
 From RLBoxV Require Import Calls.
 
 Fixpoint node_ind' (P : node -> Prop)
-  (H : forall id f c kids, Forall P kids -> P (Node id f c kids)) (n : node) : P n :=
+  (H : forall tgt fnid arg ret th c kids, Forall P kids -> P (Node tgt fnid arg ret th c kids)) (n : node) : P n :=
   match n with
-  | Node id f c kids =>
-    H id f c kids ((fix go (l : list node) : Forall P l :=
+  | Node tgt fnid arg ret th c kids =>
+    H tgt fnid arg ret th c kids ((fix go (l : list node) : Forall P l :=
                       match l with
                       | [] => Forall_nil P
                       | x :: tl => Forall_cons x (node_ind' P H x) (go tl)
                       end) kids)
   end.
 
+(* ---------- refinement: run (code) = spec (C12's demand) ---------- *)
+Definition R (r : rr) (s : list ev * bool) (c : nat) : Prop :=
+  let '(evs, ab, t', recs) := r in (evs, ab) = s /\ cur t' = c.
+
+Lemma kids_loop_spec (r : thr -> node -> rr) (rs : nat -> node -> list ev * bool) stop kids :
+  Forall (fun k => forall t, R (r t k) (rs (cur t) k) (cur t)) kids ->
+  forall t, R (kids_loop r stop kids t) (kids_spec rs stop kids (cur t)) (cur t).
+Proof.
+  induction 1 as [|k tl Hk Htl IH]; intros t; cbn [kids_loop kids_spec].
+  - cbn. split; reflexivity.
+  - specialize (Hk t). destruct (r t k) as [[[e1 ab1] t1] r1]. cbn in Hk. destruct Hk as (E & C).
+    rewrite <- E. destruct (ab1 && stop)%bool.
+    + cbn. split; [reflexivity|exact C].
+    + specialize (IH t1). rewrite C in IH.
+      destruct (kids_loop r stop tl t1) as [[[e2 ab2] t2] r2]. cbn in IH. destruct IH as (E2 & C2).
+      rewrite <- E2. cbn. split; [reflexivity|exact C2].
+Qed.
+
+Section Refine.
+Variable slot_of : nat -> nat -> option nat.
+Variable cb_void g_void : nat -> bool.
+Variable cin cout : Z -> res Z.
+
+Lemma run_refines_spec n : forall is_invoke t,
+  R (run slot_of cb_void g_void cin cout false is_invoke t n)
+    (spec slot_of cb_void g_void cin cout is_invoke (cur t) n) (cur t).
+Proof.
+  induction n as [tgt fnid arg ret th catches kids IH] using node_ind'. intros is_invoke t.
+  cbn [run spec]. destruct is_invoke.
+  - destruct (cin arg) as [a'| | |]; try (cbn; split; reflexivity).
+    pose proof (kids_loop_spec (run slot_of cb_void g_void cin cout false false)
+                  (spec slot_of cb_void g_void cin cout false) true kids) as K.
+    assert (F : Forall (fun k => forall t0, R (run slot_of cb_void g_void cin cout false false t0 k)
+                                     (spec slot_of cb_void g_void cin cout false (cur t0) k) (cur t0)) kids)
+      by (eapply Forall_impl; [|exact IH]; intros a Ha t0; apply Ha).
+    specialize (K F {| cur := tgt; lastcb := lastcb t |}). cbn [cur] in K.
+    destruct (kids_loop _ true kids _) as [[[evs ab] t2] recs].
+    destruct (kids_spec _ true kids tgt) as [evs' ab'].
+    cbn in K. destruct K as (E & C). injection E as <- <-.
+    destruct ab; [cbn; split; reflexivity|].
+    destruct (g_void fnid); [cbn; split; reflexivity|].
+    destruct (cout ret); cbn; split; reflexivity.
+  - destruct (slot_of (cur t) tgt) as [fn|] eqn:E; [|cbn; split; reflexivity].
+    cbn [cur lastcb]. rewrite E.
+    destruct (cout arg) as [a'| | |]; try (cbn; split; reflexivity).
+    pose proof (kids_loop_spec (run slot_of cb_void g_void cin cout false true)
+                  (spec slot_of cb_void g_void cin cout true) (negb catches) kids) as K.
+    assert (F : Forall (fun k => forall t0, R (run slot_of cb_void g_void cin cout false true t0 k)
+                                     (spec slot_of cb_void g_void cin cout true (cur t0) k) (cur t0)) kids)
+      by (eapply Forall_impl; [|exact IH]; intros a Ha t0; apply Ha).
+    specialize (K F {| cur := cur t; lastcb := tgt |}). cbn [cur] in K.
+    destruct (kids_loop _ (negb catches) kids _) as [[[evs ab] t2] recs].
+    destruct (kids_spec _ (negb catches) kids (cur t)) as [evs' ab'].
+    cbn in K. destruct K as (E2 & C). injection E2 as <- <-.
+    destruct (ab || th)%bool; [cbn; split; [reflexivity|exact C]|].
+    destruct (cb_void fn); [cbn; split; [reflexivity|exact C]|].
+    destruct (cin ret); cbn; (split; [reflexivity|exact C]).
+Qed.
+
+(* in the specification, an application function runs only as the function registered at the
+   entry point that was called, and is handed the sandbox whose guest code made the call *)
+Lemma rans_app a b : rans (a ++ b) = rans a ++ rans b.
+Proof. induction a as [|e a IH]; [reflexivity|]. destruct e; cbn; rewrite ?IH; reflexivity. Qed.
+
+Lemma kids_spec_ran (rs : nat -> node -> list ev * bool) (P : nat * nat -> Prop) stop kids :
+  Forall (fun k => forall c p, In p (rans (fst (rs c k))) -> P p) kids ->
+  forall c p, In p (rans (fst (kids_spec rs stop kids c))) -> P p.
+Proof.
+  induction 1 as [|k tl Hk Htl IH]; intros c p; cbn [kids_spec]; [intros []|].
+  specialize (Hk c p). destruct (rs c k) as [e1 ab1]. cbn [fst] in Hk.
+  destruct (ab1 && stop)%bool; [exact Hk|].
+  specialize (IH c p). destruct (kids_spec rs stop tl c) as [e2 ab2]. cbn [fst] in *.
+  rewrite rans_app. intros Hin. apply in_app_or in Hin as [Hin|Hin]; [apply Hk|apply IH]; exact Hin.
+Qed.
+
+Lemma spec_ran_registered n : forall is_invoke c p,
+  In p (rans (fst (spec slot_of cb_void g_void cin cout is_invoke c n))) ->
+  exists slot, slot_of (snd p) slot = Some (fst p).
+Proof.
+  induction n as [tgt fnid arg ret th catches kids IH] using node_ind'. intros is_invoke c p.
+  cbn [spec]. destruct is_invoke.
+  - destruct (cin arg) as [a'| | |]; try (cbn; intros []).
+    pose proof (kids_spec_ran (spec slot_of cb_void g_void cin cout false)
+                  (fun p => exists slot, slot_of (snd p) slot = Some (fst p)) true kids) as K.
+    assert (F : Forall (fun k => forall c0 p0, In p0 (rans (fst (spec slot_of cb_void g_void cin cout false c0 k))) ->
+                                     exists slot, slot_of (snd p0) slot = Some (fst p0)) kids)
+      by (eapply Forall_impl; [|exact IH]; intros a Ha c0 p0; apply Ha).
+    specialize (K F tgt p).
+    destruct (kids_spec _ true kids tgt) as [evs ab]. cbn [fst] in K.
+    assert (G : forall tl, rans tl = [] -> In p (rans (fst ((EIn true fnid tgt :: EGuest tgt fnid a' :: evs) ++ tl, ab))) ->
+                       exists slot, slot_of (snd p) slot = Some (fst p)).
+    { intros tl Htl. cbn [fst app rans]. rewrite rans_app, Htl, app_nil_r. exact K. }
+    destruct ab; [apply (G [_]); reflexivity|].
+    destruct (g_void fnid); [apply (G [_; _]); reflexivity|].
+    destruct (cout ret); first [apply (G [_; _]); reflexivity | apply (G [_]); reflexivity].
+  - destruct (slot_of c tgt) as [fn|] eqn:E; [|cbn; intros []].
+    destruct (cout arg) as [a'| | |]; try (cbn; intros []).
+    pose proof (kids_spec_ran (spec slot_of cb_void g_void cin cout true)
+                  (fun p => exists slot, slot_of (snd p) slot = Some (fst p)) (negb catches) kids) as K.
+    assert (F : Forall (fun k => forall c0 p0, In p0 (rans (fst (spec slot_of cb_void g_void cin cout true c0 k))) ->
+                                     exists slot, slot_of (snd p0) slot = Some (fst p0)) kids)
+      by (eapply Forall_impl; [|exact IH]; intros a Ha c0 p0; apply Ha).
+    specialize (K F c p).
+    destruct (kids_spec _ (negb catches) kids c) as [evs ab]. cbn [fst] in K.
+    assert (G : forall tl (b : bool), rans tl = [] -> In p (rans (fst ((EOut false fn c :: ERan fn c a' :: evs) ++ tl, b))) ->
+                       exists slot, slot_of (snd p) slot = Some (fst p)).
+    { intros tl b Htl. cbn [fst app rans]. rewrite rans_app, Htl, app_nil_r.
+      intros [<-|Hin]; [exists tgt; exact E|apply K; exact Hin]. }
+    destruct (ab || th)%bool; [apply (G [_]); reflexivity|].
+    destruct (cb_void fn); [apply (G [_; _]); reflexivity|].
+    destruct (cin ret); first [apply (G [_; _]); reflexivity | apply (G [_]); reflexivity].
+Qed.
+End Refine.
+
+(* ---------- C19: balanced, payload-matched, one timing record per crossing ---------- *)
 (* a run segment is neutral: it returns the stack it found, whatever follows *)
 Definition neutral (evs : list ev) : Prop := forall stack tl, nest stack (evs ++ tl) = nest stack tl.
 
@@ -20,10 +137,8 @@ Lemma neutral_nil : neutral [].
 Proof. intros stack tl; reflexivity. Qed.
 Lemma neutral_app a b : neutral a -> neutral b -> neutral (a ++ b).
 Proof. intros Ha Hb stack tl. rewrite <- app_assoc. rewrite Ha. apply Hb. Qed.
-
 Lemma frame_eqb_refl fr : frame_eqb fr fr = true.
 Proof. destruct fr as [[a b] c]. cbn. rewrite Bool.eqb_reflx, !Nat.eqb_refl. reflexivity. Qed.
-
 Lemma neutral_invoke i s mid : neutral mid -> neutral (EIn true i s :: mid ++ [EOut true i s]).
 Proof.
   intros Hm stack tl. cbn [app nest]. rewrite <- app_assoc. rewrite Hm. cbn [app nest].
@@ -34,107 +149,153 @@ Proof.
   intros Hm stack tl. cbn [app nest]. rewrite <- app_assoc. rewrite Hm. cbn [app nest].
   rewrite frame_eqb_refl. reflexivity.
 Qed.
-Lemma neutral_skip_guest s mid : neutral mid -> neutral (EGuest s :: mid).
-Proof. intros Hm stack tl. cbn [app nest]. apply Hm. Qed.
-Lemma neutral_skip_ran f s mid : neutral mid -> neutral (ERan f s :: mid).
-Proof. intros Hm stack tl. cbn [app nest]. apply Hm. Qed.
+Definition silent (e : ev) : bool :=
+  match e with EIn _ _ _ | EOut _ _ _ => false | _ => true end.
+Lemma neutral_silent e mid : silent e = true -> neutral mid -> neutral (e :: mid).
+Proof. intros He Hm stack tl. destruct e; try discriminate; cbn [app nest]; apply Hm. Qed.
+Lemma neutral_snoc_silent e mid : silent e = true -> neutral mid -> neutral (mid ++ [e]).
+Proof. intros He Hm. apply neutral_app; [exact Hm|]. apply neutral_silent; [exact He|apply neutral_nil]. Qed.
 
-Definition good (r : rr) (cur : nat) : Prop :=
-  let '(evs, ab, c, recs) := r in c = cur /\ neutral evs /\ length recs = crossings evs.
-
+Lemma closes_app a b : closes (a ++ b) = closes a ++ closes b.
+Proof. induction a as [|e a IH]; [reflexivity|]. destruct e as [[] ? ?|[] ? ?| | | | |]; cbn; rewrite ?IH; reflexivity. Qed.
 Lemma crossings_app a b : crossings (a ++ b) = (crossings a + crossings b)%nat.
 Proof. unfold crossings. rewrite filter_app, app_length. reflexivity. Qed.
 
-Lemma kids_loop_good (r : nat -> node -> rr) stop kids :
-  Forall (fun k => forall c, good (r c k) c) kids ->
-  forall c, good (kids_loop r stop kids c) c.
+Definition good (r : rr) : Prop :=
+  let '(evs, ab, t', recs) := r in neutral evs /\ recs = closes evs /\ length recs = crossings evs.
+
+Lemma kids_loop_good (r : thr -> node -> rr) stop kids :
+  Forall (fun k => forall t, good (r t k)) kids -> forall t, good (kids_loop r stop kids t).
 Proof.
-  induction 1 as [|k tl Hk Htl IH]; intros c; cbn [kids_loop].
-  - cbn. split; [reflexivity|]. split; [apply neutral_nil|reflexivity].
-  - specialize (Hk c). destruct (r c k) as [[[e1 ab1] c1] r1]. cbn in Hk. destruct Hk as (-> & N1 & L1).
+  induction 1 as [|k tl Hk Htl IH]; intros t; cbn [kids_loop].
+  - cbn. split; [apply neutral_nil|]. split; reflexivity.
+  - specialize (Hk t). destruct (r t k) as [[[e1 ab1] t1] r1]. cbn in Hk. destruct Hk as (N1 & C1 & L1).
     destruct (ab1 && stop)%bool.
-    + cbn. split; [reflexivity|]. split; assumption.
-    + specialize (IH c). destruct (kids_loop r stop tl c) as [[[e2 ab2] c2] r2]. cbn in IH.
-      destruct IH as (-> & N2 & L2). cbn. split; [reflexivity|]. split; [apply neutral_app; assumption|].
-      rewrite app_length, crossings_app. lia.
+    + cbn. repeat split; assumption.
+    + specialize (IH t1). destruct (kids_loop r stop tl t1) as [[[e2 ab2] t2] r2]. cbn in IH.
+      destruct IH as (N2 & C2 & L2). cbn. split; [apply neutral_app; assumption|].
+      rewrite closes_app, crossings_app, app_length. subst. split; [reflexivity|lia].
 Qed.
 
-Lemma run_good reg name n : forall is_invoke cur, good (run reg name is_invoke cur n) cur.
+Section Balanced.
+Variable slot_of : nat -> nat -> option nat.
+Variable cb_void g_void : nat -> bool.
+Variable cin cout : Z -> res Z.
+Variable late_key : bool.
+
+Lemma good_invoke i s a evs recs tl :
+  neutral evs -> recs = closes evs -> length recs = crossings evs -> Forall (fun e => silent e = true) tl ->
+  neutral ((EIn true i s :: EGuest s i a :: evs) ++ EOut true i s :: tl) /\
+  recs ++ [(s, true, i)] = closes ((EIn true i s :: EGuest s i a :: evs) ++ EOut true i s :: tl) /\
+  length (recs ++ [(s, true, i)]) = crossings ((EIn true i s :: EGuest s i a :: evs) ++ EOut true i s :: tl).
 Proof.
-  induction n as [id f catches kids IH] using node_ind'. intros is_invoke cur.
-  cbn [run]. destruct is_invoke.
-  - destruct f.
-    1,3,4: (pose proof (kids_loop_good (run reg name false) true kids) as K;
-      assert (F : Forall (fun k => forall c, good (run reg name false c k) c) kids)
-        by (eapply Forall_impl; [|exact IH]; intros a Ha c; apply Ha);
-      specialize (K F id); destruct (kids_loop (run reg name false) true kids id) as [[[evs ab] c] recs];
-      cbn in K; destruct K as (_ & N & L); cbn;
-      split; [reflexivity|]; split;
-      [ change (EIn true name id :: EGuest id :: evs ++ [EOut true name id]) with
-             (EIn true name id :: (EGuest id :: evs) ++ [EOut true name id]);
-        apply neutral_invoke; apply neutral_skip_guest; exact N
-      | rewrite app_length; cbn [length];
-        change (EIn true name id :: EGuest id :: evs ++ [EOut true name id]) with
-               ([EIn true name id; EGuest id] ++ evs ++ [EOut true name id]);
-        rewrite !crossings_app; cbn; lia ]).
-    cbn. split; [reflexivity|]. split; [|reflexivity].
-    change [EIn true name id; EOut true name id] with (EIn true name id :: [] ++ [EOut true name id]).
-    apply neutral_invoke, neutral_nil.
-  - destruct f.
-    1,3,4: (pose proof (kids_loop_good (run reg name true) (negb catches) kids) as K;
-      assert (F : Forall (fun k => forall c, good (run reg name true c k) c) kids)
-        by (eapply Forall_impl; [|exact IH]; intros a Ha c; apply Ha);
-      specialize (K F cur); destruct (kids_loop (run reg name true) (negb catches) kids cur) as [[[evs ab] c] recs];
-      cbn in K; destruct K as (-> & N & L); cbn;
-      split; [reflexivity|]; split;
-      [ change (EOut false (reg cur id) cur :: ERan (reg cur id) cur :: evs ++ [EIn false (reg cur id) cur]) with
-             (EOut false (reg cur id) cur :: (ERan (reg cur id) cur :: evs) ++ [EIn false (reg cur id) cur]);
-        apply neutral_callback; apply neutral_skip_ran; exact N
-      | rewrite app_length; cbn [length];
-        change (EOut false (reg cur id) cur :: ERan (reg cur id) cur :: evs ++ [EIn false (reg cur id) cur]) with
-               ([EOut false (reg cur id) cur; ERan (reg cur id) cur] ++ evs ++ [EIn false (reg cur id) cur]);
-        rewrite !crossings_app; cbn; lia ]).
-    cbn. split; [reflexivity|]. split; [|reflexivity].
-    change [EOut false (reg cur id) cur; EIn false (reg cur id) cur] with
-           (EOut false (reg cur id) cur :: [] ++ [EIn false (reg cur id) cur]).
-    apply neutral_callback, neutral_nil.
+  intros N C L Htl.
+  assert (Ctl : closes tl = [] /\ crossings tl = 0%nat /\ neutral tl).
+  { induction Htl as [|e tl He _ IH]; [repeat split; apply neutral_nil|].
+    destruct IH as (A & B & D). destruct e; try discriminate; cbn; repeat split; try assumption;
+      apply neutral_silent; try reflexivity; assumption. }
+  destruct Ctl as (A & B & D).
+  split.
+  - replace ((EIn true i s :: EGuest s i a :: evs) ++ EOut true i s :: tl) with
+        ((EIn true i s :: (EGuest s i a :: evs) ++ [EOut true i s]) ++ tl).
+    + apply neutral_app; [|exact D]. apply neutral_invoke. apply neutral_silent; [reflexivity|exact N].
+    + cbn [app]. rewrite <- app_assoc. reflexivity.
+  - cbn [app closes]. rewrite closes_app. cbn [closes]. rewrite A, C. split; [reflexivity|].
+    rewrite app_length. change (EIn true i s :: EGuest s i a :: evs ++ EOut true i s :: tl) with
+      ([EIn true i s; EGuest s i a] ++ evs ++ [EOut true i s] ++ tl).
+    rewrite !crossings_app, B. rewrite <- C, L. cbn. lia.
 Qed.
 
-(* dispatch: every application function that runs is the one registered at the entry point
-   called, in the sandbox that is executing: by construction of [run], stated on the events *)
-Lemma ran_is_registered reg name n : forall is_invoke cur fn sb,
-  In (ERan fn sb) (let '(evs, _, _, _) := run reg name is_invoke cur n in evs) ->
-  exists k, fn = reg sb k.
+Lemma silent_tl_facts tl : Forall (fun e => silent e = true) tl ->
+  closes tl = [] /\ crossings tl = 0%nat /\ neutral tl.
 Proof.
-  induction n as [id f catches kids IH] using node_ind'. intros is_invoke cur fn sb.
-  assert (KL : forall r stop, Forall (fun k => forall c fn sb, In (ERan fn sb) (let '(evs, _, _, _) := r c k in evs) -> exists j, fn = reg sb j) kids ->
-                 forall c, In (ERan fn sb) (let '(evs, _, _, _) := kids_loop r stop kids c in evs) -> exists j, fn = reg sb j).
-  { intros r stop HF. induction HF as [|k tl Hk Htl IHl]; intros c; cbn [kids_loop]; [intros []|].
-    specialize (Hk c fn sb). destruct (r c k) as [[[e1 ab1] c1] r1].
-    destruct (ab1 && stop)%bool; [exact Hk|].
-    specialize (IHl c1). destruct (kids_loop r stop tl c1) as [[[e2 ab2] c2] r2].
-    intros Hin. apply in_app_or in Hin as [Hin|Hin]; [apply Hk|apply IHl]; assumption. }
-  cbn [run]. destruct is_invoke.
-  - destruct f.
-    1,3,4: (specialize (KL (run reg name false) true);
-      assert (F : Forall (fun k => forall c fn sb, In (ERan fn sb) (let '(evs, _, _, _) := run reg name false c k in evs) -> exists j, fn = reg sb j) kids)
-        by (eapply Forall_impl; [|exact IH]; intros a Ha c fn' sb'; apply Ha);
-      specialize (KL F id); destruct (kids_loop (run reg name false) true kids id) as [[[evs ab] c] recs];
-      intros [Hin|[Hin|Hin]]; try discriminate;
-      apply in_app_or in Hin as [Hin|[Hin|[]]]; [apply KL; exact Hin|discriminate]).
-    intros [Hin|[Hin|[]]]; discriminate.
-  - destruct f.
-    1,3,4: (specialize (KL (run reg name true) (negb catches));
-      assert (F : Forall (fun k => forall c fn sb, In (ERan fn sb) (let '(evs, _, _, _) := run reg name true c k in evs) -> exists j, fn = reg sb j) kids)
-        by (eapply Forall_impl; [|exact IH]; intros a Ha c fn' sb'; apply Ha);
-      specialize (KL F cur); destruct (kids_loop (run reg name true) (negb catches) kids cur) as [[[evs ab] c] recs];
-      intros [Hin|[Hin|Hin]]; [discriminate|injection Hin as <- <-; exists id; reflexivity|];
-      apply in_app_or in Hin as [Hin|[Hin|[]]]; [apply KL; exact Hin|discriminate]).
-    intros [Hin|[Hin|[]]]; discriminate.
+  induction 1 as [|e tl He _ IH]; [repeat split; apply neutral_nil|].
+  destruct IH as (A & B & D). destruct e; try discriminate; cbn; repeat split; try assumption;
+    apply neutral_silent; try reflexivity; assumption.
 Qed.
+
+Lemma good_callback i s fn' a evs recs tl :
+  neutral evs -> recs = closes evs -> length recs = crossings evs -> Forall (fun e => silent e = true) tl ->
+  neutral ((EOut false i s :: ERan fn' s a :: evs) ++ EIn false i s :: tl) /\
+  recs ++ [(s, false, i)] = closes ((EOut false i s :: ERan fn' s a :: evs) ++ EIn false i s :: tl) /\
+  length (recs ++ [(s, false, i)]) = crossings ((EOut false i s :: ERan fn' s a :: evs) ++ EIn false i s :: tl).
+Proof.
+  intros N C L Htl. destruct (silent_tl_facts tl Htl) as (A & B & D).
+  split.
+  - replace ((EOut false i s :: ERan fn' s a :: evs) ++ EIn false i s :: tl) with
+        ((EOut false i s :: (ERan fn' s a :: evs) ++ [EIn false i s]) ++ tl).
+    + apply neutral_app; [|exact D]. apply neutral_callback. apply neutral_silent; [reflexivity|exact N].
+    + cbn [app]. rewrite <- app_assoc. reflexivity.
+  - cbn [app closes]. rewrite closes_app. cbn [closes]. rewrite A, C. split; [reflexivity|].
+    rewrite app_length. change (EOut false i s :: ERan fn' s a :: evs ++ EIn false i s :: tl) with
+      ([EOut false i s; ERan fn' s a] ++ evs ++ [EIn false i s] ++ tl).
+    rewrite !crossings_app, B. rewrite <- C, L. cbn. lia.
+Qed.
+
+Lemma run_good n : forall is_invoke t, good (run slot_of cb_void g_void cin cout late_key is_invoke t n).
+Proof.
+  induction n as [tgt fnid arg ret th catches kids IH] using node_ind'. intros is_invoke t.
+  cbn [run]. destruct is_invoke.
+  - assert (Bad : good ([EIn true fnid tgt; EOut true fnid tgt], true, t, [(tgt, true, fnid)])).
+    { cbn. split; [|split; reflexivity].
+      change [EIn true fnid tgt; EOut true fnid tgt] with (EIn true fnid tgt :: [] ++ [EOut true fnid tgt]).
+      apply neutral_invoke, neutral_nil. }
+    destruct (cin arg) as [a'| | |]; try exact Bad.
+    pose proof (kids_loop_good (run slot_of cb_void g_void cin cout late_key false) true kids) as K.
+    assert (F : Forall (fun k => forall t0, good (run slot_of cb_void g_void cin cout late_key false t0 k)) kids)
+      by (eapply Forall_impl; [|exact IH]; intros a Ha t0; apply Ha).
+    specialize (K F {| cur := tgt; lastcb := lastcb t |}).
+    destruct (kids_loop _ true kids _) as [[[evs ab] t2] recs]. cbn in K. destruct K as (N & C & L).
+    destruct ab; [cbn [good]; apply good_invoke; auto|].
+    destruct (g_void fnid); [cbn [good]; apply good_invoke; auto|].
+    destruct (cout ret); cbn [good]; apply good_invoke; auto.
+  - destruct (slot_of (cur t) tgt) as [fn1|] eqn:E;
+      [|cbn; split; [apply neutral_silent; [reflexivity|apply neutral_nil]|split; reflexivity]].
+    cbn [cur lastcb]. rewrite E.
+    assert (Bad : good ([EOut false fn1 (cur t); EIn false fn1 (cur t)], true, {| cur := cur t; lastcb := tgt |}, [(cur t, false, fn1)])).
+    { cbn. split; [|split; reflexivity].
+      change [EOut false fn1 (cur t); EIn false fn1 (cur t)] with (EOut false fn1 (cur t) :: [] ++ [EIn false fn1 (cur t)]).
+      apply neutral_callback, neutral_nil. }
+    destruct (cout arg) as [a'| | |]; try exact Bad.
+    pose proof (kids_loop_good (run slot_of cb_void g_void cin cout late_key true) (negb catches) kids) as K.
+    assert (F : Forall (fun k => forall t0, good (run slot_of cb_void g_void cin cout late_key true t0 k)) kids)
+      by (eapply Forall_impl; [|exact IH]; intros a Ha t0; apply Ha).
+    specialize (K F {| cur := cur t; lastcb := tgt |}).
+    destruct (kids_loop _ (negb catches) kids _) as [[[evs ab] t2] recs]. cbn in K. destruct K as (N & C & L).
+    set (fn := if late_key then _ else fn1).
+    destruct (ab || th)%bool; [cbn [good]; apply good_callback; auto|].
+    destruct (cb_void fn); [cbn [good]; apply good_callback; auto|].
+    destruct (cin ret); cbn [good]; apply good_callback; auto.
+Qed.
+End Balanced.
+
+(* the early fetch of (sandbox, key) in the interceptor is necessary: a variant that reads the
+   slot record after the body's nested crossings runs the wrong function's result path *)
+Example late_key_breaks_dispatch :
+  let slot := fun (s k : nat) => match k with 0%nat => Some 10%nat | 1%nat => Some 11%nat | _ => None end in
+  let t := Node 0 0 5 0 false false
+             [Node 0 0 1 2 false false [Node 0 0 5 0 false false [Node 1 0 1 2 false false []]]] in
+  let idc := fun v : Z => Ok v in
+  rans (fst (fst (fst (run slot (fun _ => false) (fun _ => false) idc idc true true {| cur := 9; lastcb := 0 |} t))))
+    <> rans (fst (spec slot (fun _ => false) (fun _ => false) idc idc true 9%nat t)) /\
+  rans (fst (fst (fst (run slot (fun _ => false) (fun _ => false) idc idc false true {| cur := 9; lastcb := 0 |} t))))
+    = rans (fst (spec slot (fun _ => false) (fun _ => false) idc idc true 9%nat t)).
+Proof. vm_compute. split; [intros H; discriminate H|reflexivity]. Qed.
 
 Example tree_example :
-  let t := Node 0 FNone false [Node 1 FNone true [Node 1 FRes false []]; Node 2 FBody false []] in
-  let '(evs, ab, c, recs) := run (fun s k => (10 * s + k)%nat) 7 true 99 t in
-  nest [] evs = Some [] /\ ab = true /\ c = 99%nat /\ length recs = 4%nat.
+  let slot := fun (s k : nat) => Some (10 * s + k)%nat in
+  let t := Node 0 0 5 7 false false
+             [Node 1 0 1 2 false true [Node 1 0 (2^40) 0 false false []; Node 1 1 3 4 false false []];
+              Node 2 0 1 2 true false []] in
+  let cin := fun v : Z => if (v <? 2^31)%Z then Ok v else Abort in
+  let '(evs, ab, c, recs) := run slot (fun _ => false) (fun f => Nat.eqb f 1) cin (fun v => Ok v) false true {| cur := 99; lastcb := 0 |} t in
+  nest [] evs = Some [] /\ ab = true /\ cur c = 99%nat /\ length recs = 5%nat /\ recs = closes evs.
 Proof. vm_compute. repeat split. Qed.
+
+Lemma neutral_nest evs : neutral evs -> nest [] evs = Some [].
+Proof. intros H. specialize (H [] []). rewrite app_nil_r in H. exact H. Qed.
+
+(* the slot table of the lifecycle/registry model (World.v) as the dispatch table *)
+From RLBoxV Require Import World.
+Definition world_slot_of (w : world) (s k : nat) : option nat :=
+  match nth k (slots (get_sb w s)) None with Some key => Some (Z.to_nat key) | None => None end.
